@@ -28,7 +28,7 @@ RULE = ("batdata generator (1-5 groups with 1-3 batteries behind 1-4 shared inve
         "ordered bounds; probes = the four advertised bounds, +-1 W around each, +-0.001 W, random interior. distinct = "
         "canonical case JSON; non-trivial = >=2 groups or a shared-inverter/shared-battery group, and at least one "
         "probe inside and one outside the advertised bounds")
-REQUIRED_BUCKETS = ["group-with-one-battery-not-working",
+REQUIRED_BUCKETS = ["battery-group-outside-the-pool-present", "group-with-one-battery-not-working",
                     "probe-inside-accepted", "probe-outside-rejected", "shared-inverters(n bat:1 inv)",
                     "shared-batteries(1 bat:n inv)", "nonzero-exclusion", "adjust_power=True", "adjust_power=False",
                     "probe-on-bound", "irregular-group(batteries with different inverter sets)"]
@@ -49,7 +49,8 @@ def gen(rng: Any, tier: str, i: int) -> Any:
         groups = [batdata.gen_group(rng, mode) for _ in range(ng)]
         if all(batdata.component_ok(c) for g in groups for c in g["bats"] + g["invs"]):
             irregular = (rng.random() < 0.3 and 2 <= len(groups[0]["bats"]) <= 3 and len(groups[0]["invs"]) >= 2)
-            case = {"groups": groups, "pseed": rng.randrange(1 << 30), "irregular": irregular}
+            case = {"groups": groups, "pseed": rng.randrange(1 << 30), "irregular": irregular,
+                    "bystander": rng.random() < 0.25}
             multi = [g for g, grp in enumerate(groups) if len(grp["bats"]) >= 2]
             if multi and not irregular and rng.random() < 0.25:
                 # one battery of a group reports a state in which it does not work (relay open) while its data keeps
@@ -74,6 +75,8 @@ def _iid(case: dict[str, Any], g: int, j: int) -> int:
 def _topology(case: dict[str, Any]) -> tuple[list[Any], list[Any]]:
     groups = [([_bid(case, g, j) for j in range(len(grp["bats"]))],
                [_iid(case, g, j) for j in range(len(grp["invs"]))]) for g, grp in enumerate(case["groups"])]
+    if case.get("bystander"):
+        groups = groups + [([990], [995])]  # one more battery group in the microgrid, not part of the pool
     comps, conns = fakes.battery_topology(groups)
     if case.get("irregular"):
         # group 0 is not a complete bipartite graph: only its first battery is connected to every inverter, the
@@ -142,6 +145,10 @@ async def _drive(case: dict[str, Any], probes: list[float], out: dict[str, Any])
             await api.feed(_bid(case, g, j), msg)
         for j, i in enumerate(grp["invs"]):
             await api.feed(_iid(case, g, j), batdata.mk_inverter(_iid(case, g, j), i, now))
+    if case.get("bystander"):
+        await api.feed(990, batdata.mk_battery(990, {"soc": 50.0, "lo": 10.0, "hi": 90.0, "cap": 5000.0, "il": -9000.0,
+                                                     "el": -77.0, "eu": 77.0, "iu": 9000.0}, now))
+        await api.feed(995, batdata.mk_inverter(995, {"il": -9000.0, "el": -33.0, "eu": 33.0, "iu": 9000.0}, now))
     await asyncio.sleep(0.5)
     all_bats = {b for bats, _ in groups for b in bats}
     for p in probes:
@@ -171,6 +178,8 @@ def check(case: dict[str, Any], rec: Any) -> None:
         rec.bucket("irregular-group(batteries with different inverter sets)")
     if case.get("not_working"):
         rec.bucket("group-with-one-battery-not-working")
+    if case.get("bystander"):
+        rec.bucket("battery-group-outside-the-pool-present")
     if sb.inclusion_bounds is None or sb.exclusion_bounds is None:
         rec.violation("no-bounds-advertised-for-complete-data", {"sb": repr(sb)})
         return
